@@ -206,6 +206,9 @@ type fwo struct {
 	allowMissing  bool
 	before, after *icpt
 	create        bool
+	// WithCreatedCallback / WithGenIDIfAbsent / WithIDCallback: the callbacks themselves are attached by
+	// world.exec (they log into the fcall), opts() leaves them out
+	createdCb, genID, idCb bool
 }
 
 func (o *fwo) coq() string {
@@ -222,7 +225,7 @@ func (o *fwo) coq() string {
 		opt(o.check != nil, func() string { return o.check.coq() }), vcoq.Bool(o.allowMissing),
 		opt(o.before != nil, func() string { return o.before.coq() }),
 		opt(o.after != nil, func() string { return o.after.coq() }),
-		vcoq.Bool(o.create), "false", "false", "false")
+		vcoq.Bool(o.create), vcoq.Bool(o.createdCb), vcoq.Bool(o.genID), vcoq.Bool(o.idCb))
 }
 func (o *fwo) js() any {
 	m := map[string]any{}
@@ -243,6 +246,15 @@ func (o *fwo) js() any {
 	}
 	if o.allowMissing {
 		m["allow_missing"] = true
+	}
+	if o.createdCb {
+		m["created_callback"] = true
+	}
+	if o.genID {
+		m["gen_id_if_absent"] = true
+	}
+	if o.idCb {
+		m["id_callback"] = true
 	}
 	if o.before != nil {
 		m["before"] = o.before.coq()
